@@ -240,7 +240,7 @@ class ConcH:
         a = np.asarray(a)
         b = np.asarray(b)
         if self.cfg.get('__twin__'):
-            b = np.array(b, dtype=complex if (b.dtype.kind == 'c' or a.dtype.kind == 'c') else float, copy=True)
+            b = np.array(b, dtype=complex if (b.dtype.kind == 'c' or a.dtype.kind == 'c') else float, copy=True, order='C')
             flat = b.reshape(-1)
             for i in range(flat.size):
                 if np.isfinite(flat[i]):
